@@ -352,19 +352,25 @@ class Session:
         try:
             if c["ev"] == "Step":
                 kwargs = dict(n_steps=c["n"], take_best=c["take_best"], broyden=c["broyden"])
-                dis = c["dis"]
-                if dis == "vary":
-                    kwargs["disable_vary"] = [0]
-                    ev["dis_v"] = [1]
-                elif dis == "vary_name":
-                    kwargs["disable_vary_name"] = f"k{spec['nk'] - 1}"
-                    ev["dis_v"] = [spec["nk"]]
-                elif dis == "target":
-                    kwargs["disable_target"] = [spec["twin_target"]]
-                    ev["dis_t"] = [spec["twin_target"] + 1]
-                elif dis == "en_vary":
-                    kwargs["enable_vary"] = [0]
-                    ev["en_v"] = [1]
+                # one-call flag arguments; "a+b" passes two of them in the same call (LongMenu of OptCalls.tla)
+                for dis in c["dis"].split("+"):
+                    if dis == "vary":
+                        kwargs["disable_vary"] = [0]
+                        ev["dis_v"] = sorted(set(ev["dis_v"]) | {1})
+                    elif dis == "vary_name":
+                        kwargs["disable_vary_name"] = f"k{spec['nk'] - 1}"
+                        ev["dis_v"] = sorted(set(ev["dis_v"]) | {spec["nk"]})
+                    elif dis == "target":
+                        kwargs["disable_target"] = [spec["twin_target"]]
+                        ev["dis_t"] = [spec["twin_target"] + 1]
+                    elif dis == "en_vary":
+                        kwargs["enable_vary"] = [0]
+                        ev["en_v"] = [1]
+                    elif dis == "en_target":
+                        kwargs["enable_target"] = [spec["twin_target"]]
+                        ev["en_t"] = [spec["twin_target"] + 1]
+                    elif dis != "none":
+                        raise KeyError(dis)
                 fn = lambda: opt.step(**kwargs)
             elif c["ev"] == "Solve":
                 ev.update(n=spec["n_steps_max"], take_best=True)
